@@ -397,12 +397,17 @@ def _build_cells(tier):
                     combos += [("post", "interior"), ("pre", "mixed")]
                 if quick and ((i + rep) % 3):
                     combos = combos[(i + rep + 1) % 2:][:1]
+                else:
+                    combos += [("reset", POINT_CLASSES[(i + rep + 1) % 5])]
             else:
                 combos = [(s, p) for s in ("pre", "post") for p in POINT_CLASSES]
                 if quick:
                     combos = [combos[(3 * i + 7 * rep) % 10], combos[(3 * i + 5 + (i % 4) + 3 * rep) % 10]]
                     if combos[0] == combos[1]:
                         combos = combos[:1]
+                    combos += [("reset", POINT_CLASSES[(i + 2 * rep) % 5])]
+                else:
+                    combos += [("reset", p) for p in POINT_CLASSES]
             for s, p in combos:
                 cells.append(dict(cfg=i, state=s, pcls=p))
     for rep in range(2 if quick else 40):
@@ -645,7 +650,7 @@ def _run_cell(cfg, cell, rng, npts, n, scratch, fd):
     defect = angle_defect_predicate(m.comps)
     eff = {p: tuple(b) for p, b in bounds.items()}
     excluded_note = None
-    if state == "post":
+    if state in ("post", "reset"):
         cloud_vals = {}
         for p, (lo, hi) in bounds.items():
             a = lo + rng.uniform(0, 0.6) * (hi - lo)
@@ -660,7 +665,15 @@ def _run_cell(cfg, cell, rng, npts, n, scratch, fd):
             probs.append((_key(cfg, f"exception:{type(e).__name__}@update"), f"{label} on bounds {bounds}: update raised {type(e).__name__}: {str(e)[:200]}"))
             return res
         bump("updates")
-        for p in inversion_parameters(m.comps) & set(bounds):
+        if state == "reset":
+            # update followed by reset(): the object must behave like a fresh one again (this is what verify_rescaling and FlowProposal.reset rely on)
+            try:
+                m.reset()
+            except Exception as e:
+                probs.append((_key(cfg, f"exception:{type(e).__name__}@reset"), f"{label} on bounds {bounds}: reset raised {type(e).__name__}: {str(e)[:200]}"))
+                return res
+            bump("resets")
+        for p in (inversion_parameters(m.comps) & set(bounds) if state == "post" else ()):
             eff[p] = (float(cloud_vals[p].min()), float(cloud_vals[p].max()))
             excluded_note = "post-update points restricted to the updated range for inversion parameters"
     values = {}
